@@ -86,8 +86,11 @@ LAYOUTS = {
     'map_deeper': ('/srv/build/a.min.js', '/srv/build/maps/a.min.js.map', '/srv/src/a.js'),
     'map_above': ('/srv/build/js/a.min.js', '/srv/build/a.min.js.map', '/srv/src/lib/a.js'),
     'relative': ('a.min.js', 'a.min.js.map', 'a.js'),
+    # names whose UTF-8 JSON text needs the characters + and / of the standard base64 alphabet in an inline map
+    'nonascii': ('/srv/build/a~.min.js', '/srv/build/a.min.js.map', '/srv/src/\u043f\u0440\u0438~?.js'),
 }
 PROGRAM = 'var foo = function(bar) {\n  return bar + 1;\n};\n'
+PROGRAM_NONASCII = 'var \u043f\u0435\u0440\u0435\u043c = function(\u3042\u3044, \u00ff\u00fe) {\n  return \u3042\u3044 + \u00ff\u00fe;\n};\n'
 
 
 def h_write(mods, out_kind, map_kind, layout, normalize_paths, nodes_kind, printer_kind):
@@ -97,7 +100,7 @@ def h_write(mods, out_kind, map_kind, layout, normalize_paths, nodes_kind, print
         E = sx.E
         ctl = Ctl()
         out_name, map_name, src_name = LAYOUTS[layout]
-        tree = parse(PROGRAM)
+        tree = parse(PROGRAM_NONASCII if layout == 'nonascii' else PROGRAM)
         tree.sourcepath = src_name
         printer = es5u.pretty_printer() if printer_kind == 'pretty' else es5u.minify_printer(obfuscate=True)
 
@@ -164,7 +167,11 @@ def h_write(mods, out_kind, map_kind, layout, normalize_paths, nodes_kind, print
             E.check(ok, 'inline sourceMappingURL missing or malformed: %r' % tail[:80])
             if not ok:
                 return
-            doc = json.loads(base64.b64decode(tail[len(prefix):]).decode('utf8'))
+            try:
+                doc = json.loads(base64.b64decode(tail[len(prefix):], validate=True).decode('utf8'))
+            except ValueError as e:
+                E.check(False, 'inline sourceMappingURL payload is not standard base64 of UTF-8 JSON (%s): %r' % (e, tail[len(prefix):][:60]))
+                return
             exp_file, exp_sources = rel(out_name, out_name), [rel(out_name, s) for s in sources]
         else:
             exp_url = rel(out_name, map_name)
@@ -294,7 +301,7 @@ def main():
     tasks = []
     for out_kind in ('factory', 'open'):
         for map_kind in ('none', 'same', 'factory', 'open'):
-            for layout in (LAYOUTS if th else ('same_dir', 'map_deeper', 'relative')):
+            for layout in (LAYOUTS if th else ('same_dir', 'map_deeper', 'relative', 'nonascii')):
                 for npaths in (True, False):
                     for nodes_kind in (('node', 'list') if th else ('node',)):
                         for pk in (('pretty', 'minify') if th else ('pretty',)):
